@@ -39,6 +39,8 @@ def _prof(name: str) -> Prof:
                 'meta_e': Prof(symbol=0, svar=False, mu=False, app=False, metavars=1, subst=True, mv_cfgs=((0, 0, 0, 0), (1, 0, 0, 0))),
                 'meta_s': Prof(symbol=0, evar=False, exists=False, app=False, metavars=1, subst=True, mv_cfgs=one),
                 'meta_full': Prof(symbol=0, metavars=1, subst=True, mv_cfgs=one),
+                'meta_ss': Prof(symbol=0, evar=False, exists=False, mu=False, app=False, metavars=1, subst=True, mv_cfgs=((0, 0, 0, 0), (0, 0, 1, 0), (0, 0, 0, 1))),
+                'val_ss': Prof(symbol=0, evar=False, exists=False, mu=False, app=False),
                 'val_e': Prof(symbol=0, svar=False, mu=False, app=False),
                 'val_s': Prof(symbol=0, evar=False, exists=False, app=False),
                 'val_full': Prof(symbol=0, app=False),
@@ -133,6 +135,8 @@ def levels(tier: str) -> list[dict]:
     for kind in ('s_fresh', 'positive', 'negative'):
         for n in range(1, nmax + 1):
             L.append(dict(label=f'rs/{kind}/n={n},val<={m}', module=M, fn='h_judge', kwargs=dict(n=n, m=m, impl='rs', kind=kind, prof='meta_s', valprof='val_s'), budget_s=bud, required=n <= 3, twin=(n == 3 and kind == 'positive')))
+    for kind in ('positive', 'negative'):
+        L.append(dict(label=f'rs/{kind}/ssubst-polarity/n=5,val<=3', module=M, fn='h_judge', kwargs=dict(n=5, m=3, impl='rs', kind=kind, prof='meta_ss', valprof='val_ss'), budget_s=bud, required=True, twin=False))
     if not q:
         for kind in ('e_fresh', 's_fresh', 'positive', 'negative'):
             for n in (3, 4):
